@@ -242,9 +242,12 @@ def starset_case(ctx, B, E, name, classes, N, origin, kind):
         ctx.violation('generate:raises:' + type(e).__name__, '%s: StarSet construction raised %r' % (what, e), replay)
         return
     keys, _ = K.impl_view(S)
+    snapS = K.snapshot(S)
     try:
         t1 = S.jumpnetwork_omega1()
         t2 = S.jumpnetwork_omega2()
+        if K.snapshot(S) != snapS:
+            ctx.violation('operand-mutated:omega', '%s: jumpnetwork_omega1/2 changed the star set' % what, replay)
     except Exception as e:
         ctx.violation('omega:raises:' + type(e).__name__, '%s: jumpnetwork_omega raised %r' % (what, e), replay)
         return
